@@ -1,7 +1,6 @@
 package main
 
 import (
-	_ "embed"
 	"fmt"
 	"go/ast"
 	"go/parser"
@@ -11,48 +10,9 @@ import (
 	"strconv"
 	"strings"
 
+	"verif/harness/internal/catalog"
 	"verif/harness/internal/progen"
 )
-
-//go:embed catalogue/items.txt
-var catalogueText string
-
-type item struct {
-	id    string
-	files map[string]string // extra files
-	main  string
-	calls [][]string
-}
-
-func parseCatalogue() []*item {
-	var items []*item
-	var cur *item
-	var dst *string
-	for _, l := range strings.Split(catalogueText, "\n") {
-		switch {
-		case strings.HasPrefix(l, "### id:"):
-			cur = &item{id: strings.TrimSpace(strings.TrimPrefix(l, "### id:")), files: map[string]string{}}
-			items = append(items, cur)
-			dst = nil
-		case strings.HasPrefix(l, "### file:"):
-			name := strings.TrimSpace(strings.TrimPrefix(l, "### file:"))
-			cur.files[name] = ""
-			name2 := name
-			dst = new(string)
-			defer func(c *item, d *string) { c.files[name2] = *d }(cur, dst)
-		case strings.HasPrefix(l, "### main"):
-			dst = &cur.main
-		case strings.HasPrefix(l, "### call:"):
-			cur.calls = append(cur.calls, strings.Fields(strings.TrimPrefix(l, "### call:")))
-		case strings.HasPrefix(l, "#"):
-		default:
-			if dst != nil {
-				*dst += l + "\n"
-			}
-		}
-	}
-	return items
-}
 
 func typeOfAst(e ast.Expr) *progen.Type {
 	if id, ok := e.(*ast.Ident); ok {
@@ -73,22 +33,22 @@ func typeOfAst(e ast.Expr) *progen.Type {
 // catalogueCases writes the catalogue packages into mod/c and returns them as cases.
 func catalogueCases(mod string, only string) []*caseT {
 	var cases []*caseT
-	for _, it := range parseCatalogue() {
-		if only != "" && !strings.Contains(it.id, only) {
+	for _, it := range catalog.Items() {
+		if only != "" && !strings.Contains(it.ID, only) {
 			continue
 		}
-		dir := filepath.Join(mod, "c", it.id)
+		dir := filepath.Join(mod, "c", it.ID)
 		os.MkdirAll(dir, 0o755)
-		src := "package " + it.id + "\n\n" + it.main
+		src := "package " + it.ID + "\n\n" + it.Main
 		os.WriteFile(filepath.Join(dir, "p.go"), []byte(src), 0o644)
-		for name, txt := range it.files {
+		for name, txt := range it.Files {
 			os.MkdirAll(filepath.Dir(filepath.Join(dir, name)), 0o755)
 			os.WriteFile(filepath.Join(dir, name), []byte(txt), 0o644)
 		}
 		fset := token.NewFileSet()
 		f, err := parser.ParseFile(fset, "p.go", src, 0)
 		if err != nil {
-			fmt.Fprintf(os.Stderr, "catalogue item %s does not parse: %v\n", it.id, err)
+			fmt.Fprintf(os.Stderr, "catalogue item %s does not parse: %v\n", it.ID, err)
 			os.Exit(3)
 		}
 		sigs := map[string]*ast.FuncType{}
@@ -113,11 +73,11 @@ func catalogueCases(mod string, only string) []*caseT {
 				}
 			}
 		}
-		pkg := &progen.Package{Name: it.id}
-		for _, c := range it.calls {
+		pkg := &progen.Package{Name: it.ID}
+		for _, c := range it.Calls {
 			ft := sigs[c[0]]
 			if ft == nil {
-				fmt.Fprintf(os.Stderr, "catalogue item %s: no function %s\n", it.id, c[0])
+				fmt.Fprintf(os.Stderr, "catalogue item %s: no function %s\n", it.ID, c[0])
 				os.Exit(3)
 			}
 			cl := progen.Call{Fn: c[0]}
@@ -126,7 +86,7 @@ func catalogueCases(mod string, only string) []*caseT {
 				for range fl.Names {
 					t := typeOfAst(fl.Type)
 					if t == nil || i >= len(c) {
-						fmt.Fprintf(os.Stderr, "catalogue item %s: bad call %v\n", it.id, c)
+						fmt.Fprintf(os.Stderr, "catalogue item %s: bad call %v\n", it.ID, c)
 						os.Exit(3)
 					}
 					var v uint64
@@ -150,7 +110,7 @@ func catalogueCases(mod string, only string) []*caseT {
 			}
 			pkg.Calls = append(pkg.Calls, cl)
 		}
-		cases = append(cases, &caseT{name: it.id, dir: "c/" + it.id, pkg: pkg, src: src, native: map[int]string{}, model: map[int]string{}, decls: declNames})
+		cases = append(cases, &caseT{name: it.ID, dir: "c/" + it.ID, pkg: pkg, src: src, native: map[int]string{}, model: map[int]string{}, decls: declNames})
 	}
 	return cases
 }
